@@ -81,6 +81,38 @@ def run(ctx):
                 SP.one_case(eng, res, s, [], [], [], order, SC.FIELD_GROUPS["depth"] + ["unique_tag_count"], "tag permutation")
                 nperm += 1
         res.coverage_extra["tag_permutations"] = nperm
+        # tag chains of every length 1..5 ending in a blob, a tree or a commit — as the only thing in the repository, and next to
+        # an unrelated history with the chain alone selected by a ROOT argument or an --include rule, so that the walk holds
+        # annotated tags but no commit (and for a blob no tree either) — fake git and real git
+        nchain = 0
+        for length in range(1, 6):
+            for endkind in ("blob", "tree", "commit"):
+                for alone in (True, False):
+                    s = S.Scenario()
+                    b = s.add({"kind": "blob", "data": b"chain end\n"})
+                    t = s.add({"kind": "tree", "entries": [(0o100644, b"f", b)]})
+                    c = s.add({"kind": "commit", "tree": t, "parents": []})
+                    lone_b = s.add({"kind": "blob", "data": b"only tagged\n"})
+                    lone_t = s.add({"kind": "tree", "entries": [(0o100644, b"g", lone_b)]})
+                    g = {"blob": lone_b, "tree": lone_t, "commit": c}[endkind]
+                    for i in range(length):
+                        g = s.add({"kind": "tag", "target": g, "name": b"k%d" % i})
+                    s.refs.append((b"refs/tags/k", g))
+                    if not alone:
+                        c2 = s.add({"kind": "commit", "tree": t, "parents": [c], "date": 1500000500})
+                        s.refs.append((b"refs/heads/main", c2))
+                    s = s.normalize()
+                    top = dict(s.refs)[b"refs/tags/k"]
+                    fields = SC.FIELD_GROUPS["depth"] + ["unique_tag_count", "unique_blob_count", "unique_tree_count", "unique_commit_count"]
+                    sels = [([], [], [])] if alone else [([], [], [("refs/tags/k", top)]), (["--include", "refs/tags/k"], [(True, "prefix", b"refs/tags/k")], []),
+                                                         (["--tags", "--no-branches"], [SC.FLAG_OPTS["--tags"], SC.FLAG_OPTS["--no-branches"]], [])]
+                    for args_, opts_, explicit_ in sels:
+                        walked = [r["obj"] for r in SC.build_roots(s, opts_, explicit_) if r["walk"]]
+                        for real in (False, True):
+                            SP.one_case(eng, res, s, args_, opts_, explicit_, None if real else s.enum_gitlike(walked), fields,
+                                        "chain of %d tags ending in a %s, %s" % (length, endkind, "alone" if alone else "selected from a larger repository"), real=real)
+                            nchain += 1
+        res.coverage_extra["tag_chain_cases"] = nchain
         # the stored history counts: a replace ref or a graft that would shorten the longest chain, or redirect an
         # annotated tag, must not change the depths
         import os, subprocess
